@@ -2,6 +2,7 @@ package np
 
 import (
 	"fmt"
+	"go/types"
 	"strings"
 
 	"golang.org/x/tools/go/ssa"
@@ -10,7 +11,7 @@ import (
 func init() { register("C11", propC11) }
 
 func propC11(c *Ctx) {
-	c.Explanation = "Decides structural necessary conditions of UDP datagram integrity for all inputs and schedules: (U1) every access to the receive-queue fields holds rcvMu (must-lockset); (U2) a datagram is enqueued only after the length check and the ready/closed/buffer-full test, all inside one critical section (drop-whole); (U3) the queued packet is a fresh object whose data is a Clone of the view after exactly one TrimFront(UDP header size) and no CapLength, and whose sender address is (NIC of the route, remote address of the id, source port of the header); (U4) rcvList.PushBack only in HandlePacket, Read removes the front element inside the critical section and returns that element's data and sender (FIFO, at most once), the byte accounting adds/subtracts the same packet's size; (U5) Write sends exactly one datagram per successful return with payload = Payload.Get(Payload.Size()) of the caller, local port of the endpoint and the destination port of the connect/To address, returns len(payload), and sends only after route resolution; (U6) the 16-bit UDP length cannot wrap: Write rejects payloads whose size plus the 8-byte header exceeds 65535 (interval analysis of sendUDP's narrowing conversion under that guard). (U7) the read side is closed (rcvClosed, after which HandlePacket drops whole datagrams) exactly when Shutdown is called with ShutdownRead or the endpoint is closed - no earlier shutdown state can suppress it - and nowhere else. (U8) the IPv4 reassembly key covers id, protocol and every byte of both addresses (shared with C08/F4): datagrams of different senders are never merged by reassembly. (U9) link typestate of the packet list. NOT decided: byte equality of delivered and sent data over histories; behaviour when the UDP length field is smaller than the IP payload (trailing bytes are delivered)."
+	c.Explanation = "Decides structural necessary conditions of UDP datagram integrity for all inputs and schedules: (U1) every access to the receive-queue fields holds rcvMu (must-lockset); (U2) a datagram is enqueued only after the length check and the ready/closed/buffer-full test, all inside one critical section (drop-whole); (U3) the queued packet is a fresh object whose data is a Clone of the view after exactly one TrimFront(UDP header size) and no CapLength, and whose sender address is (NIC of the route, remote address of the id, source port of the header); (U4) rcvList.PushBack only in HandlePacket, Read removes the front element inside the critical section and returns that element's data and sender (FIFO, at most once), the byte accounting adds/subtracts the same packet's size; (U5) Write sends exactly one datagram per successful return with payload = Payload.Get(Payload.Size()) of the caller, local port of the endpoint and the destination port of the connect/To address, returns len(payload), and sends only after route resolution; (U6) the 16-bit UDP length cannot wrap: Write rejects payloads whose size plus the 8-byte header exceeds 65535 (interval analysis of sendUDP's narrowing conversion under that guard). (U7) the read side is closed (rcvClosed, after which HandlePacket drops whole datagrams) exactly when Shutdown is called with ShutdownRead or the endpoint is closed - no earlier shutdown state can suppress it - and nowhere else. (U8) the IPv4 reassembly key covers id, protocol and every byte of both addresses (shared with C08/F4): datagrams of different senders are never merged by reassembly. (U9) link typestate of the packet list. (U10) no examined callee error ends in a nil return in the UDP, route, IPv4/IPv6 and link packages; U5 also tables Route.WritePacket's pass-through of the network endpoint's result. NOT decided: byte equality of delivered and sent data over histories; behaviour when the UDP length field is smaller than the IP payload (trailing bytes are delivered)."
 	c.Assumptions = []string{"tcpip.Payload.Get(n) returns at most n bytes", "header accessors are pure between the guard and the use in HandlePacket"}
 	u1 := c.Rule("U1", "K4 lockset", "receive queue fields only under rcvMu", 20)
 	c.Locks().CheckGuards(c, u1, guardsUDP, nil)
@@ -152,7 +153,53 @@ func propC11(c *Ctx) {
 		c.Check(okAddr, u4, FuncName(fn)+"/sender-of-same-packet", c.P.Pos(fn.Pos()), "*addr = p.senderAddress of the dequeued packet", "reported sender is not the dequeued packet's senderAddress")
 	}
 
+	// U10: "... or the write fails": on the way from Write to the wire no layer
+	// turns a callee's error into success. For every function of the UDP, route,
+	// IPv4/IPv6 and link packages that returns *tcpip.Error: an error value that
+	// the function examines never reaches a `return nil` on a path where it may
+	// be non-nil (closed world over those packages; expected count zero, the
+	// scan's reach is shown by the number of error-producing calls examined).
+	u10 := c.Rule("U10", "K2 path search (error discipline, closed world over the send-path packages)", "no examined error of a callee ends in a nil return", 1)
+	nErrCalls := 0
+	for _, fn := range c.P.Funcs {
+		if fn.Pkg == nil || inTesting(fn) {
+			continue
+		}
+		pp := fn.Pkg.Pkg.Path()
+		file := c.P.Pos(fn.Pos())
+		inScope := strings.HasSuffix(pp, "/protocol/transport/udp") || strings.HasSuffix(pp, "/protocol/network/ipv4") || strings.HasSuffix(pp, "/protocol/network/ipv6") || strings.Contains(pp, "/protocol/link/") || (strings.HasSuffix(pp, "/stack") && strings.HasPrefix(file, "stack/route.go"))
+		if !inScope {
+			continue
+		}
+		res := fn.Signature.Results()
+		if res.Len() == 0 || !isTcpipError(res.At(res.Len()-1).Type()) {
+			continue
+		}
+		Instrs(fn, func(in ssa.Instruction) {
+			if call, ok := in.(*ssa.Call); ok {
+				t := call.Type()
+				if tup, ok := t.(*types.Tuple); ok && tup.Len() > 0 {
+					t = tup.At(tup.Len() - 1).Type()
+				}
+				if isTcpipError(t) {
+					nErrCalls++
+				}
+			}
+		})
+		for _, sw := range SwallowedErrors(fn) {
+			c.Bad(u10, FuncName(fn)+"/swallows:"+sw.Desc, c.pos(sw.Ret), "the error returned by "+sw.Desc+" (call at "+c.pos(sw.Call)+") is examined, yet this return reports success on a path where it can be non-nil: a datagram the lower layer refused is reported as sent")
+		}
+	}
+	c.Check(nErrCalls >= 20, u10, "send-path/error-producing-calls-examined", "protocol/transport/udp", "the scan saw the send path's error-producing calls", "fewer error-producing calls than reviewed: the scan went blind")
+
 	u5 := c.Rule("U5", "K1/K2/K5", "Write: one datagram, exact payload, after resolution", 6)
+	if fn := c.Fn(u5, "(*stack.Route).WritePacket"); fn != nil {
+		wp := "iface:stack.NetworkEndpoint.WritePacket($0.ref.ep, $0, $1, $2, $3, $4)"
+		c.CheckSites(u5, fn, []SiteSpec{
+			{Kind: "call", Target: "iface:stack.NetworkEndpoint.WritePacket", Args: []string{"$0.ref.ep", "$0", "$1", "$2", "$3", "$4"}, Guards: []string{}, Exact: true, N: 1, Why: "the route hands header, payload, protocol and TTL to the network endpoint unchanged"},
+			{Kind: "return", Args: []string{wp}, Guards: []string{}, Exact: true, N: 1, Why: "... and returns ITS result: an error from the network or link layer (message too long, device refused) is never turned into success"},
+		})
+	}
 	if fn := c.Fn(u5, "(*udp.endpoint).Write"); fn != nil {
 		payload := "iface:tcpip.Payload.Get($1, iface:tcpip.Payload.Size($1))"
 		m := map[string]string{"ROUTE": "phi{&$0.route | &new(stack.Route)}"}
